@@ -144,21 +144,34 @@ def records_for(inst, seed=0):
                 rec["parent_ok"] = bool(child_ok)
                 recs.append(rec)
     di = mask.derive_indexes
+
+    def lst(fn, ndim):
+        """alpha for a published index list: a 1D list of ints (or [N,2] pairs); anything else (a 0-d scalar, an exception,
+        a wrong rank) is an unknown value that no clause accepts"""
+        try:
+            a = np.asarray(fn())
+            if a.ndim != ndim or (ndim == 2 and a.shape[1] != 2):
+                return [[exact.OFF, exact.OFF]] if ndim == 2 else [exact.OFF]
+            return a.astype(int).tolist()
+        except Exception:  # noqa: BLE001
+            return [[exact.OFF, exact.OFF]] if ndim == 2 else [exact.OFF]
+
     recs.append({"p": "C01", "api": "indexes", "h": h, "w": w, "u": u,
-                 "nfs": np.asarray(di.native_for_slim).astype(int).tolist(),
-                 "uslim": np.asarray(di.unmasked_slim).astype(int).tolist(),
-                 "mslim": np.asarray(di.masked_slim).astype(int).tolist()})
+                 "nfs": lst(lambda: di.native_for_slim, 2),
+                 "uslim": lst(lambda: di.unmasked_slim, 1),
+                 "mslim": lst(lambda: di.masked_slim, 1)})
     if len(u) > 1:
         # history: same Mask2D object, edited in place after its index tables (and edge/border tables) were read
         di.edge_native, di.border_native
         k0 = u[len(u) // 2]
         mask[k0 // w, k0 % w] = True
         u2 = [x for x in u if x != k0]
-        di2 = mask.derive_indexes
-        recs.append({"p": "C01", "api": "indexes", "h": h, "w": w, "u": u2, "edited_in_place": True,
-                     "nfs": np.asarray(di2.native_for_slim).astype(int).tolist(),
-                     "uslim": np.asarray(di2.unmasked_slim).astype(int).tolist(),
-                     "mslim": np.asarray(di2.masked_slim).astype(int).tolist()})
+        # ... read through a fresh derive_indexes object and through the one HELD since before the edit
+        for di2, held in ((mask.derive_indexes, False), (di, True)):
+            recs.append({"p": "C01", "api": "indexes", "h": h, "w": w, "u": u2, "edited_in_place": True, "held_object": held,
+                         "nfs": lst(lambda: di2.native_for_slim, 2),
+                         "uslim": lst(lambda: di2.unmasked_slim, 1),
+                         "mslim": lst(lambda: di2.masked_slim, 1)})
         m = np.asarray(mask).astype(bool).copy()
     if h == 1:
         m1 = aa.Mask1D(mask=m[0], pixel_scales=1.0)
